@@ -267,7 +267,7 @@ where
             if contested {
                 fail!("honest-fri-fails", "fri-degree-truncation-config", "prover panic {} :: {}", pn.msg, ctx());
             }
-            if pn.msg.contains("FailedToDrawFieldElement") || pn.msg.contains("failed to draw") {
+            if (pn.msg.contains("FailedToDrawFieldElement") || pn.msg.contains("failed to draw")) && crate::protocol::combo_field(combo) == 0 && p.ext == 3 {
                 fail!("honest-fri-fails", "coin-draw-exhaustion", "prover panic {} :: {}", pn.msg, ctx());
             }
             fail!("fri-prover-panic", pn.site(), "{}:{}: {} :: {}", pn.file, pn.line, pn.msg, ctx());
@@ -292,7 +292,7 @@ where
                 if contested {
                     fail!("honest-fri-fails", "fri-degree-truncation-config", "{e} :: {}", ctx());
                 }
-                if e.contains("failed to draw") {
+                if e.contains("failed to draw") && crate::protocol::combo_field(combo) == 0 && p.ext == 3 {
                     fail!("honest-fri-fails", "coin-draw-exhaustion", "{e} :: {}", ctx());
                 }
                 fail!("fri-verifier-rejects-honest-proof", e.split(':').take(2).collect::<Vec<_>>().join(":").chars().filter(|c| !c.is_ascii_digit()).collect::<String>(), "{label}: {e} :: {}", ctx());
